@@ -91,6 +91,8 @@ PARTIES = [
     "Johnson", "A", "B", "X Corp.", "Acme, Inc.", "Lissner", "De la Cruz", "MARBURY", "Madison",
     "Twombly", "Iqbal", "Bell Atlantic Corp.", "Co.", "Inc.", "U.S.", "1st Bank", "éclair",
     "Shapiro", "Miranda", "Arizona", "Supra", "Idaho", "Lee", "Ng", "St. Paul Fire & Marine Ins. Co.",
+    # names with characters that are special to regexes, format strings and templates
+    "Jones {Bar", "Doe{", "Smith} Co", "A(B", "C[D", "E\\F", "G*H", "Roe+Co", "Q?", "Bar^2", "$mith", "Foo|Bar", "{0}", "%s Ltd",
 ]
 COMMON_REPORTERS = [
     "U.S.", "U. S.", "S. Ct.", "S.Ct.", "L. Ed. 2d", "L.Ed.2d", "F.", "F.2d", "F.3d", "F.4th",
